@@ -40,11 +40,24 @@ func (k *knownEntry) matches(v *Violation) bool {
 	return globEq(k.Kind, v.Kind) && globEq(k.Class, v.Class) && globEq(k.Locus, v.Locus)
 }
 
+// globEq matches s against pat where '*' stands for any (possibly empty) substring.
 func globEq(pat, s string) bool {
-	if strings.HasSuffix(pat, "*") {
-		return strings.HasPrefix(s, strings.TrimSuffix(pat, "*"))
+	parts := strings.Split(pat, "*")
+	if len(parts) == 1 {
+		return pat == s
 	}
-	return pat == s
+	if !strings.HasPrefix(s, parts[0]) {
+		return false
+	}
+	s = s[len(parts[0]):]
+	for _, p := range parts[1 : len(parts)-1] {
+		i := strings.Index(s, p)
+		if i < 0 {
+			return false
+		}
+		s = s[i+len(p):]
+	}
+	return strings.HasSuffix(s, parts[len(parts)-1])
 }
 
 var knownRe = regexp.MustCompile(`^known:\s+property=(\S+)\s+key="kind=(\S+) class=(\S+) locus=(\S+)"\s+witness=(\S+)\s+(.*)$`)
